@@ -111,6 +111,11 @@ pub fn local_to_absolute_addr(
     index: u16,
     num_proc_locals: u16,
 ) -> Result<(), AssemblyError> {
+    // a procedure which does not declare any locals has no valid local index
+    if num_proc_locals == 0 {
+        return Err(AssemblyError::locals_not_declared(index));
+    }
+
     let max = num_proc_locals - 1;
     validate_param(index, 0..=max)?;
 
